@@ -125,6 +125,59 @@ func runTracker(c *Case) ([]Obs, any) {
 				tip = next
 				next++
 				return Obs{OK}
+			case "stall_confirm": // conn [txids] : untrusted connection conn's peer has stopped reading (its outgoing channel is
+				// full); the connection's periodic check runs (it has txids to ask for again) - and blocks in the
+				// transmit; then the trusted peer's block confirming txids is processed.  Answer: [0, check blocked?,
+				// block processed within 2 s?]; afterwards the channel is drained again.
+				un := uns[op.Int(0)-1]
+				un.VerifFillOutgoing()
+				cdone := make(chan error, 1)
+				go func() { cdone <- un.VerifCheck(ctx) }()
+				blocked := int64(1)
+				select {
+				case <-cdone:
+					blocked = 0
+				case <-time.After(300 * time.Millisecond):
+				}
+				var txs []*wire.MsgTx
+				var hashes []bitcoin.Hash32
+				for _, t := range op.Ints(1) {
+					tx, ok := tu.txs[t]
+					if !ok {
+						panic(harnessErr("undeclared tx in block"))
+					}
+					txs = append(txs, tx)
+					hashes = append(hashes, *tx.TxHash())
+				}
+				root := merkleRoot(hashes)
+				hdr := bu.Header(next, tip, 1400000000+next*600, &root)
+				bdone := make(chan error, 1)
+				go func() { bdone <- f.node.ProcessBlock(ctx, &txBlock{header: *hdr, txs: txs, valid: true}) }()
+				processed := int64(0)
+				select {
+				case err := <-bdone:
+					if err == nil {
+						processed = 1
+					}
+				case <-time.After(2 * time.Second):
+				}
+				un.VerifDrainOutgoing()
+				if blocked == 1 {
+					select {
+					case <-cdone:
+					case <-time.After(2 * time.Second):
+					}
+				}
+				if processed == 0 {
+					select {
+					case <-bdone:
+					case <-time.After(2 * time.Second):
+					}
+				}
+				un.VerifDrainOutgoing()
+				tip = next
+				next++
+				return Obs{OK, blocked, processed}
 			case "setinsync": // the node leaves / regains sync (block inventory, reorg header): blocks processed meanwhile
 				// still confirm their transactions
 				if op.Int(0) != 0 {
